@@ -132,6 +132,11 @@ def stub_repr():
     """Message/Node/Child __repr__ -> constant: formatting is not the subject (DESIGN 2.4)."""
     from aiomysensors.model import message, node
 
+    import marshmallow.validate as mv
+
+    # error-text formatting with the offending value realises it (str.format); not the subject
+    mv.Range._format_error = lambda self, value, message: message
+    mv.OneOf._format_error = lambda self, value: self.error
     message.Message.__repr__ = lambda self: "Message(...)"
     node.Node.__repr__ = lambda self: "Node(...)"
     node.Child.__repr__ = lambda self: "Child(...)"
